@@ -75,6 +75,10 @@ EVENTS = {
                   'invalid:duplicate symbol'),
     '!derivebase': (['unit', 'B1', 'xd', ['derive', ['x0']]], ['B1'],
                     'invalid:derive on base type'),
+    '!dupderive': (['unit', 'V', 'x0/y0', ['derive', ['x1', 'y1']]],
+                   ['V', 'x1', 'y1'], 'invalid:duplicate symbol'),
+    '!dupterm': (['unit', 'B1', 'x0', ['term', [['i:7', 1], ['x1', 1]]]],
+                 ['x1'], 'invalid:duplicate symbol'),
     '!NB2': (['dtype', 'NB2', [['B1', -1], ['N1', 1]], 'nb2', None], ['NB'],
              'invalid:dimension taken'),
     '!P2': (['dtype', 'P2', [['B2', 1], ['B1', 1]], None, None], ['P'],
